@@ -279,6 +279,8 @@ def evaluate(run, cases):
         rep = {"journal": c["text"], "group_by": c["group_by"], "report_timezone": c["rtz"], "selected_accounts": c["names"],
                "implementation_groups": c["impl"], "text_report_titles": c["text_titles"], "source": c["src"],
                "replay_hint": "tackler --config <toml with report-timezone, balance-group.group-by> --input.file <journal> --reports balance-group; ./check C13 --replay <this file>"}
+        if c.get("expect_titles") is not None:
+            rep["expect_titles"] = c["expect_titles"]           # hand-checked corpus case: the expectation belongs to the case
         c["replay"] = rep
         if not (bits & 4):
             c["verdict"] = "outside-exact-domain"
@@ -366,18 +368,35 @@ def main(run):
 
 
 def replay(run, path):
-    j = json.load(open(path))
-    rp = j.get("replay", j)
-    if "journal" not in rp:
-        print(json.dumps(j, indent=1, ensure_ascii=False)[:6000])
-        return 0
+    """the stored journal under the stored group-by / report zone / selection through evaluate() (harness + c13_case)"""
+    j, rp, rc = replay_begin(run, path)
+    if rc is not None:
+        return rc
+    if not (isinstance(rp.get("journal"), str) and "group_by" in rp and "report_timezone" in rp):
+        return replay_print(j)
+    if zoneinfo is None:
+        raise Infra("python zoneinfo not available")
+    print(j.get("what"))
+    print("journal:\n%s\ngroup-by %s, report zone %s, selected accounts %s" % (rp["journal"], rp["group_by"], rp["report_timezone"], rp.get("selected_accounts")))
     harness_build()
-    ok, log = coq_make(["corr/C13_corr.vo"])
-    if not ok:
-        raise Infra("coq build failed:\n" + log[-2000:])
+    corr_build("C13")
     c = {"text": rp["journal"], "group_by": rp["group_by"], "rtz": rp["report_timezone"],
          "names": rp.get("selected_accounts", []), "src": "replay"}
+    m = re.search(r"group titles differ from the expected periods (\[.*\])$", str(j.get("what") or ""))
+    if rp.get("expect_titles") is not None:
+        c["expect_titles"] = rp["expect_titles"]
+    elif m:                                                        # files written before the key existed
+        try:
+            import ast
+            c["expect_titles"] = ast.literal_eval(m.group(1))      # a hand-checked corpus case: its expectation is part of the case
+        except Exception:
+            pass
     evaluate(run, [c])
     print(json.dumps({"verdict": c.get("verdict"), "bits": c.get("bits"), "titles": c.get("titles"),
                       "text_titles": c.get("text_titles"), "what": c.get("what")}, indent=1, ensure_ascii=False))
-    return 1 if c.get("verdict") in ("spec", "text", "expect", "corr") else 0
+    v = c.get("verdict")
+    if v in ("spec", "text", "expect"):
+        run.violation(c["what"], c["replay"])
+    elif v == "corr":
+        run.violation(c["what"], dict(c["replay"], correspondence="C13_corr.c13_case"), found_input=False)
+    return replay_verdict(run, path, j, "verdict of the stored case now: %s (titles %s)" % (v, c.get("titles")))
